@@ -38,6 +38,9 @@ def run(prop, tier):
         plans.append(("c14_len3", C(MaxLen=3, MaxKeys=3, QHi=40, SampleMod=5, SampleRes=sd % 5), [{"scale": 1}, {"scale": 2, "fill": 15}]))
     else:
         plans.append(("c14_len3", C(MaxLen=3, MaxKeys=4, QHi=48), [{"scale": 1}, {"scale": 2, "fill": 15}, {"scale": 1, "fill": 100}]))
+    # six keys of lengths 0..3: three sampled keys, so that the quota can run out on the middle one while a later,
+    # shorter one would still fit (the index must stop there: slot n holds the key at position n*hop)
+    plans.append(("c14_six", C(MaxLen=3, MaxKeys=6, QLo=(24 if q else 18), QHi=(31 if q else 44), SampleMod=(19 if q else 7), SampleRes=sd % (19 if q else 7)), [{"scale": 1}]))
     shapes = {}
     for name, consts, dimlist in plans:
         cfg = os.path.join(work, name + ".cfg")
